@@ -595,6 +595,23 @@ func genPackageOpt(r *vh.Rand, awkward, decorate bool) *gPackage {
 	if p.Clash == "" && g.clash != "" {
 		p.Clash = g.clash
 	}
+	// a method WITH a body whose PATH parameter refers to a named schema nothing else refers to (an enum declared
+	// after everything else was generated, so no other property can pick it): the schema is reachable only through
+	// the path parameter of a non-GET method (seeded C16-I: collectPackageRefs walked path / query parameters only for
+	// methods without a body). A GET twin keeps the query-parameter side covered (its enum is reachable only through a
+	// query parameter).
+	if p.Clash == "" && len(p.Services) > 0 && r.Chance(60) {
+		sv := &p.Services[0]
+		verb := vh.Pick(r, []string{"POST", "PUT", "PATCH", "DELETE"})
+		p.Schemas = append(p.Schemas, gSchema{Name: "PathOnlyKind", Kind: "enum"}, gSchema{Name: "QueryOnlyKind", Kind: "enum"})
+		sv.Methods = append(sv.Methods,
+			gMethod{Name: fmt.Sprintf("MarkByKind%d", len(sv.Methods)), Verb: verb, Path: "/mark/:pathKind/done",
+				Req:  []gProp{{Name: "pathKind", Ty: gTy{Kind: "enum", Ref: "PathOnlyKind"}}, {Name: "note", Ty: gTy{Kind: "string"}}},
+				Resp: []gProp{{Name: "ok", Ty: gTy{Kind: "bool"}}}},
+			gMethod{Name: fmt.Sprintf("FindByKind%d", len(sv.Methods)+1), Verb: "GET", Path: "/find/:code",
+				Req:  []gProp{{Name: "code", Ty: gTy{Kind: "string"}}, {Name: "queryKind", Ty: gTy{Kind: "enum", Ref: "QueryOnlyKind"}}},
+				Resp: []gProp{{Name: "ok", Ty: gTy{Kind: "bool"}}}})
+	}
 	return p
 }
 
